@@ -27,6 +27,7 @@ pub enum Queued {
     RunCommand { sys: SystemCommand },
     TryInsert { entity: Entity, bundle: int },
     Syscall { sys: int, input: int },
+    RemoveLocal { entity: Entity },
 }
 pub uninterp spec fn enc<I>(i: I) -> int;
 pub uninterp spec fn sys_id<S>(s: S) -> int;
@@ -40,6 +41,11 @@ pub type EntityCommands<'a> = &'a mut EntityCommandsInner;
 impl EntityCommandsInner {
     pub uninterp spec fn entity(&self) -> Entity;
     pub uninterp spec fn log(&self) -> Seq<Queued>;
+    // EntityCommands::remove::<B>(): queues the removal of component B from this entity (B = the reactor's local data here)
+    #[verifier::external_body]
+    pub fn remove<B>(&mut self) -> (r: &mut Self)
+        ensures final(self).log() == old(self).log().push(Queued::RemoveLocal { entity: old(self).entity() }), final(self).entity() == old(self).entity(),
+    { unimplemented!() }
     #[verifier::external_body]
     pub fn try_insert<B>(&mut self, b: B) -> (r: &mut Self)
         ensures final(self).log() == old(self).log().push(Queued::TryInsert { entity: old(self).entity(), bundle: enc(b) }), final(self).entity() == old(self).entity(),
@@ -63,6 +69,11 @@ impl<'w> CommandsInner<'w> {
     pub fn queue(&mut self, c: SystemCommand) ensures final(self).log() == old(self).log().push(Queued::RunCommand { sys: c }), final(self).alive() == old(self).alive() { unimplemented!() }
     #[verifier::external_body]
     pub fn syscall<I, S>(&mut self, input: I, sys: S) ensures final(self).log() == old(self).log().push(Queued::Syscall { sys: sys_id(sys), input: enc(input) }), final(self).alive() == old(self).alive() { unimplemented!() }
+    // Commands::entity(e): a handle focused on e (no existence check; the queued command is a no-op for a dead entity)
+    #[verifier::external_body]
+    pub fn entity(&mut self, e: Entity) -> (r: EntityCommands<'_>)
+        ensures r.entity() == e && r.log() == old(self).log() && final(self).log() == final(r).log(), final(self).alive() == old(self).alive(),
+    { unimplemented!() }
     #[verifier::external_body]
     pub fn get_entity(&mut self, e: Entity) -> (r: Option<EntityCommands<'_>>)
         ensures r is Some <==> old(self).alive().contains(e),
@@ -120,7 +131,46 @@ pub trait EntityWorldReactor: Sized { type Triggers: EntityTriggerBundle + React
 //@fn src/react/entity_world_reactor.rs impl EntityWorldLocal new ret=r
 //@| ensures r.data == data,
 //@endimpl
-#[verifier::external_body] pub fn cleanup_reactor_data<T: EntityWorldReactor>() { unimplemented!() }
+// ---- cleanup_reactor_data (the system EntityReactor::remove queues per entity): the local data is removed iff the entity's
+// registration list holds NO entry of this reactor any more; an entity without list is left alone.  `find` closure lifted (rule 23).
+pub struct In<T>(pub T);
+pub struct QueryEntityError;
+#[verifier::external_body] pub struct EntityReactors { _p: u8 }
+#[verifier::external_body] pub struct RIter<'a> { _p: PhantomData<&'a u8> }
+impl<'a> RIter<'a> { pub uninterp spec fn elems(&self) -> Seq<SystemCommand>; pub uninterp spec fn pos(&self) -> nat; }
+impl<'a> Iterator for RIter<'a> { type Item = SystemCommand; #[verifier::external_body] fn next(&mut self) -> (r: Option<SystemCommand>) { unimplemented!() } }
+impl<'a> vstd::std_specs::iter::IteratorSpecImpl for RIter<'a> {
+    open spec fn obeys_prophetic_iter_laws(&self) -> bool { true }
+    open spec fn remaining(&self) -> Seq<SystemCommand> { self.elems().subrange(self.pos() as int, self.elems().len() as int) }
+    open spec fn will_return_none(&self) -> bool { true }
+    open spec fn decrease(&self) -> Option<nat> { Some((self.elems().len() - self.pos()) as nat) }
+    open spec fn peek(&self, index: int) -> Option<SystemCommand> { if 0 <= index < self.elems().len() - self.pos() { Some(self.elems()[self.pos() + index]) } else { None } }
+}
+impl EntityReactors {
+    /// the reactor ids of the entity's registrations, in list order
+    pub uninterp spec fn ids(&self) -> Seq<SystemCommand>;
+    // ASSUMED (discharged on the real SmallVec-based code by K.entity_reactors.queries.*)
+    #[verifier::external_body]
+    pub fn iter_reactors(&self) -> (r: RIter<'_>) ensures r.elems() == self.ids(), r.pos() == 0 { unimplemented!() }
+}
+#[verifier::external_body] #[verifier::accept_recursive_types(D)]
+pub struct Query<'w, 's, D> { _p: PhantomData<(&'w (), &'s (), D)> }
+impl<'w, 's, D> Query<'w, 's, D> {
+    pub uninterp spec fn lists(&self) -> Map<Entity, EntityReactors>;
+    #[verifier::external_body]
+    pub fn get(&self, e: Entity) -> (r: Result<&EntityReactors, QueryEntityError>)
+        ensures r is Ok <==> self.lists().dom().contains(e), r is Ok ==> *r->Ok_0 == self.lists()[e] { unimplemented!() }
+}
+//@fn src/react/entity_world_reactor.rs - cleanup_reactor_data
+//@| ensures ({ let (id, entity) = verif_in.0;
+//@|     final(commands).log() == (if entities.lists().dom().contains(entity) && !entities.lists()[entity].ids().contains(id)
+//@|         { old(commands).log().push(Queued::RemoveLocal { entity: entity }) } else { old(commands).log() }) }),
+//@liftfind if reactor.iter_reactors() | cleanup_find | SystemCommand | RIter<'_> | id: SystemCommand
+//@lift| requires verif_iter.pos() == 0,
+//@lift| ensures r is Some <==> verif_iter.elems().contains(id),
+//@lift.pred| ensures b == (*verif_x == id),
+//@lift.inv| forall|j: int| 0 <= j < verif_it.index@ ==> verif_it.seq()[j] != id, verif_it.seq() =~= verif_iter.elems(),
+//@lift.found| assert(verif_iter.elems()[verif_it.index@ as int] == id);
 pub open spec fn cleanups<T: EntityWorldReactor>(id: SystemCommand, ents: Seq<Entity>) -> Seq<Queued> {
     ents.map_values(|e: Entity| Queued::Syscall { sys: sys_id(cleanup_reactor_data::<T>), input: enc((id, e)) })
 }
